@@ -2,7 +2,7 @@
    attributed to the repository that contains them, shared tables are never
    modified.  Only statements; every proof is [exact <lemma>]. *)
 From AL Require Import Base.Str Base.AList Multi.Project Multi.Cache Multi.Tables Multi.Race.
-From AL Require Gen.GenGlobals Multi.Globals.
+From AL Require Gen.GenGlobals Multi.Globals Multi.CacheSplit.
 
 (* a file is attributed to the nearest enclosing repository root, for every
    history of earlier look-ups (sibling names sharing a prefix and nested
@@ -59,6 +59,48 @@ Theorem C10_once_per_run_refuted :
     consistent load c /\ fst (run load p c) <> fst (run load p []).
 Proof. exact once_per_run_refuted. Qed.
 Print Assumptions C10_once_per_run_refuted.
+
+(* "their own defects are reported once per run".  A lookup is two critical
+   sections (probe, then - after the file was read - commit); the caller that is
+   answered `not cached` reports the callee's own defects.  Under EVERY schedule
+   of the probes and commits of any number of files, at every moment, a callee
+   has been answered `not cached` exactly as often as it is in the cache - never
+   twice *)
+Theorem C10_callee_defects_never_reported_twice :
+  forall (V : Type) (load : string -> V) (files : list (list string)) (sched : list nat) (callee : string),
+  let (ts, c) := CacheSplit.exec load true sched (map CacheSplit.start files) [] in
+  CacheSplit.firsts callee ts = CacheSplit.mem callee c /\ CacheSplit.firsts callee ts <= 1.
+Proof. exact (@CacheSplit.split_first_once). Qed.
+Print Assumptions C10_callee_defects_never_reported_twice.
+
+(* ... and when every file of the run is finished, exactly once if some file
+   used the callee, never otherwise *)
+Theorem C10_callee_defects_reported_exactly_once :
+  forall (V : Type) (load : string -> V) (files : list (list string)) (sched : list nat) (callee : string),
+  let (ts, c) := CacheSplit.exec load true sched (map CacheSplit.start files) [] in
+  Forall CacheSplit.finished ts ->
+  CacheSplit.firsts callee ts = if existsb (fun ks => existsb (String.eqb callee) ks) files then 1 else 0.
+Proof. exact (@CacheSplit.split_reported_exactly_once). Qed.
+Print Assumptions C10_callee_defects_reported_exactly_once.
+
+(* the value a lookup delivers is what the callee's file says under every
+   schedule of the two-section protocol, before and after the repair: the atomic
+   lookup of C10_per_file_isolated is a faithful abstraction for per-file results *)
+Theorem C10_split_lookup_values :
+  forall (V : Type) (load : string -> V) (fixed : bool) sched ts c,
+  CacheSplit.consistent load c -> Forall (CacheSplit.answers_ok load) ts ->
+  CacheSplit.consistent load (snd (CacheSplit.exec load fixed sched ts c)) /\
+  Forall (CacheSplit.answers_ok load) (fst (CacheSplit.exec load fixed sched ts c)).
+Proof. exact (@CacheSplit.split_values). Qed.
+Print Assumptions C10_split_lookup_values.
+
+(* the protocol before cf88990 (commit stores unconditionally and answers `not
+   cached`): two files, both probes before either commit, two reports *)
+Theorem C10_once_per_run_old_refuted :
+  exists (files : list (list string)) sched callee,
+    CacheSplit.firsts callee (fst (CacheSplit.exec (fun _ => tt) false sched (map CacheSplit.start files) [])) = 2.
+Proof. exact CacheSplit.split_old_refuted. Qed.
+Print Assumptions C10_once_per_run_old_refuted.
 
 (* shared tables: unchanged after any sequence of operations, and never written *)
 Theorem C10_tables_unchanged : forall render s ops, run_ops (step render) s ops = (s, []).
